@@ -81,6 +81,9 @@ func (p c08) Run(runseed uint64, tier string, acc *Acc) []*core.Violation {
 	if f.W.Many {
 		acc.Inc("class/many-row-groups")
 	}
+	if f.W.Huge {
+		acc.Inc("class/huge-values")
+	}
 	for c := 1; c <= maxReq; c++ {
 		switch {
 		case c > 512: // only large files request this much at once: seeded sample of about 64 sizes
